@@ -347,7 +347,7 @@ PROPS["C13"] = dict(
                "notify_spec — queued iff BUFF & payload & live session, Downlink Data Report iff NOCP & live; drain_exact / applyAction_forw / _drop — a release emits, PDR by PDR over exactly the PDRs "
                "related to the FAR, every queued packet in order exactly once with the FAR's TEID and the PDR's QFI and leaves those queues empty (drain_idem: a second release emits nothing), other "
                "queues untouched; datagram_wellformed (via C14) — each datagram is a G-PDU read back exactly; updateFar_frame; no_ghost / establish_fresh / removePdr_drops — nothing of an ended "
-               "session or a removed PDR can be emitted, also after SEID or PDR id re-use. Tie: S-full buffering stream on the real server + driver. periods_exact — for EVERY history of pushes and releases on one queue (any number of buffering periods of any lengths, overflowing or not) each release emits exactly the packets accepted since the previous release, once each, in arrival order (G-PDUs with the release's TEID and the PDR's QFI; nothing for a drop), against a counter-only specification (a packet is accepted iff fewer than 512 are waiting since the last release).",
+               "session or a removed PDR can be emitted, also after SEID or PDR id re-use. Tie: S-full buffering stream on the real server + driver. periods_exact — for EVERY history of pushes and releases on one queue (any number of buffering periods of any lengths, overflowing or not) each release emits exactly the packets accepted since the previous release, once each, in arrival order (G-PDUs with the release's TEID and the PDR's QFI; nothing for a drop), against a counter-only specification (a packet is accepted iff fewer than 512 are waiting since the last release). held_whatever_the_notification (control-plane side) — a packet handed up with BUFF and a payload is appended to its PDR's queue before and independently of the Session Report Request: the queues after the report are those of push, NOCP or not, wherever the notification goes; notification_goes_to_owner.",
     level_note="Trusted: Lean kernel; hand-written Model/Buf.lean (checked against the real stack each run); simulated kernel. Fixed: stale queue after Remove PDR; Update FAR order dependence.",
 )
 
